@@ -257,11 +257,32 @@ def random_continuum(pa, rng, n_ann, max_units, unlabelled=0.0, grid=True, allow
     return c
 
 
+_TRIPLES, _DISSIMS = [], {}
+
+
 def random_dissim(pa, rng, c, allow_cat=True):
-    """A built-in dissimilarity with random parameters, applicable to continuum c."""
-    de = rng.choice([0.5, 1.0, 2.0, 0.5, 1.0, 2.0, 0.85, 1.7, 1.45, 2.9, 0.3, 1.95, 1.15, 0.1, 0.2, 0.4, 0.8, 0.05, 0.9, 1.3, 0.7])   # dyadic and non-dyadic
-    alpha = rng.choice([0.0, 0.5, 1.0, 3.0, 0.7, 2.2])
-    beta = rng.choice([0.0, 0.5, 1.0, 3.0, 1.3])
+    """A built-in dissimilarity with random parameters, applicable to continuum c.
+    Objects are re-used for equal (kind, parameters, declared categories): every new dissimilarity object costs a JIT
+    compilation of its own and ~1 MB that numba never gives back (thousands of them made the thorough tier swell to 10 GB), and
+    using ONE object on many continua is what a user does.  The parameter triples come from a pool of 48 drawn once."""
+    if not _TRIPLES:
+        des = [0.5, 1.0, 2.0, 0.5, 1.0, 2.0, 0.85, 1.7, 1.45, 2.9, 0.3, 1.95, 1.15, 0.1, 0.2, 0.4, 0.8, 0.05, 0.9, 1.3, 0.7]   # dyadic and non-dyadic
+        while len(_TRIPLES) < 48:
+            _TRIPLES.append((rng.choice(des), rng.choice([0.0, 0.5, 1.0, 3.0, 0.7, 2.2]), rng.choice([0.0, 0.5, 1.0, 3.0, 1.3])))
+    de, alpha, beta = rng.choice(_TRIPLES)
+    kind, key, make = _random_dissim_spec(pa, rng, c, allow_cat, de, alpha, beta)
+    if key not in _DISSIMS:
+        _DISSIMS[key] = make()
+    return kind, _DISSIMS[key]
+
+
+def _random_dissim_spec(pa, rng, c, allow_cat, de, alpha, beta):
+    """(kind, cache key, constructor) - the random choices (label order, matrix) are made here, the object only if needed."""
+    kind, d = _random_dissim_build(pa, rng, c, allow_cat, de, alpha, beta, dry=True)
+    return kind, d[0], d[1]
+
+
+def _random_dissim_build(pa, rng, c, allow_cat, de, alpha, beta, dry=False):
     labelled = all(u.annotation is not None for _, u in c) and len(c.categories) > 0
     kinds = ["pos", "comb_abs", "abs"]
     if labelled and allow_cat:
@@ -272,32 +293,38 @@ def random_dissim(pa, rng, c, allow_cat=True):
         # the dissimilarity is declared on a strict SUPERSET of the labels in use (unused labels before, between and after)
         from sortedcontainers import SortedSet
         cats = SortedSet(list(cats) + ["0", "5", "m", "zzzz"])
+    ck = tuple(cats) if cats is not None else None
     if kind == "pos":
-        return kind, pa.PositionalSporadicDissimilarity(delta_empty=de)
+        return kind, ((kind, de), lambda: pa.PositionalSporadicDissimilarity(delta_empty=de))
     if kind == "abs":
-        return kind, pa.AbsoluteCategoricalDissimilarity(delta_empty=de)
+        return kind, ((kind, de), lambda: pa.AbsoluteCategoricalDissimilarity(delta_empty=de))
     if kind == "comb_abs":
-        return kind, pa.CombinedCategoricalDissimilarity(alpha=alpha, beta=beta, delta_empty=de)
-    if kind in ("lev", "comb_lev"):
-        cd = pa.LevenshteinCategoricalDissimilarity(list(cats), delta_empty=de)
-    elif kind == "comb_ord":
-        labs = list(cats)
+        return kind, ((kind, de, alpha, beta), lambda: pa.CombinedCategoricalDissimilarity(alpha=alpha, beta=beta, delta_empty=de))
+    if kind == "comb_num" and not all(x.isdigit() for x in c.categories):
+        return "comb_abs", (("comb_abs", de, alpha, beta), lambda: pa.CombinedCategoricalDissimilarity(alpha=alpha, beta=beta, delta_empty=de))
+    labs = list(cats)
+    if kind == "comb_ord":
         rng.shuffle(labs)
-        cd = pa.OrdinalCategoricalDissimilarity(labs, delta_empty=de)
-    elif kind == "comb_num":
-        if not all(x.isdigit() for x in c.categories):
-            return "comb_abs", pa.CombinedCategoricalDissimilarity(alpha=alpha, beta=beta, delta_empty=de)
-        cd = pa.NumericalCategoricalDissimilarity([x for x in cats if x.replace(".", "").isdigit()], delta_empty=de)
-    else:
+        labs = labs if hash(tuple(labs)) % 3 else sorted(labs, reverse=True)     # a few supply orders per category set, not all
+
+    def component():
+        if kind in ("lev", "comb_lev"):
+            return pa.LevenshteinCategoricalDissimilarity(list(cats), delta_empty=de)
+        if kind == "comb_ord":
+            return pa.OrdinalCategoricalDissimilarity(labs, delta_empty=de)
+        if kind == "comb_num":
+            return pa.NumericalCategoricalDissimilarity([x for x in cats if x.replace(".", "").isdigit()], delta_empty=de)
         k = len(cats)
+        mrng = random.Random(hash((ck, de)) & 0xFFFFFFF)       # the matrix is a function of (categories, delta_empty)
         m = np.zeros((k, k), dtype=np.float32)
         for i in range(k):
             for j in range(i):
-                m[i, j] = m[j, i] = rng.choice([0.25, 0.5, 1.0, 1.5])
-        cd = pa.PrecomputedCategoricalDissimilarity(cats, m, delta_empty=de)
+                m[i, j] = m[j, i] = mrng.choice([0.25, 0.5, 1.0, 1.5])
+        return pa.PrecomputedCategoricalDissimilarity(cats, m, delta_empty=de)
     if kind in ("pre", "lev"):
-        return kind, cd
-    return kind, pa.CombinedCategoricalDissimilarity(alpha=alpha, beta=beta, delta_empty=de, cat_dissim=cd)
+        return kind, ((kind, de, ck), component)
+    return kind, ((kind, de, alpha, beta, ck, tuple(labs) if kind == "comb_ord" else None),
+                  lambda: pa.CombinedCategoricalDissimilarity(alpha=alpha, beta=beta, delta_empty=de, cat_dissim=component()))
 
 
 SHAPES_SEARCH = [(2, 5), (2, 6), (3, 3), (3, 4), (4, 2), (4, 3), (5, 2)]
